@@ -251,11 +251,20 @@ def failHolds (k : ReplyKind) (w : W) : W :=
 
 /-! ### handlers (`do*`) -/
 
+/-- `onDemandPublisherWaitAgain` (fix of finding F-C19 `hold-no-timer`, upstream 316e99c): a request
+is put on hold while the on-demand publisher has gone away (state ready / closing, no stream): stop the
+close timer, arm the start-timeout timer again, back to `waiting`. -/
+def onDemandPublisherWaitAgain (w : W) : W :=
+  if w.s.odPub = .waiting then w
+  else
+    let w := if w.s.odPub = .closing then emit (.disarm .pubClose) (upd (fun s => { s with tPubClose := false }) w) else w
+    emit (.arm .pubReady) (upd (fun s => { s with tPubReady := true, odPub := .waiting }) w)
+
 def holdDemand (w : W) : W :=
   if w.s.conf.odStatic then
     (if w.s.odSrc = .initial then onDemandStaticSourceStart w else w)
   else
-    (if w.s.odPub = .initial then onDemandPublisherStart w else w)
+    (if w.s.odPub = .initial then onDemandPublisherStart w else onDemandPublisherWaitAgain w)
 
 def doDescribe (rid : Nat) (w : W) : W :=
   if w.s.source = some .redirect then emit (.reply rid .redirect) w
